@@ -15,8 +15,8 @@ def run(ctx):
     if hasattr(ctx, "run_corpus"):
         ctx.run_corpus("c16")
     quick = ctx.tier == "quick"
-    n = 10000 if quick else 300000
-    cpu = 150 if quick else 2500
+    n = 10000 if quick else 1500000
+    cpu = 150 if quick else 6000
     ctx.differential("c16", n, extra=["-cpu", str(cpu), "-cpudir", "cpu"],
                      nontrivial=lambda req, resp: " a" in req or req.startswith("accept-cpu"))
     ctx.coverage["rule"] = (
